@@ -169,7 +169,7 @@ def check_mutated_rule(ctx, case) -> None:
 
 # ---- exactly one injected error ------------------------------------------------------------------
 ERROR_CLASSES = ["missing_if", "missing_then", "missing_is", "missing_connective", "missing_variable", "missing_term", "missing_operand",
-                 "unknown_variable", "unknown_term", "unknown_hedge", "foreign_term", "foreign_variable", "unbalanced_paren", "nonnumeric_weight",
+                 "unknown_variable", "unknown_term", "unknown_hedge", "foreign_term", "foreign_variable", "stray_comma", "unbalanced_paren", "nonnumeric_weight",
                  "trailing_token"]
 UNKNOWN_NAMES = ["Foo", "bar_9", "Ambiente", "dark", "Q", "Powe", "veryy", "high_", "LOWER"]
 BAD_WEIGHTS = ["abc", "0,5", "1.0.0", "--1", "one", "HIGH", "0.5x", "1..0"]
@@ -256,6 +256,14 @@ def inject(r, cls, pick):
         # an input variable in the consequent (only output variables can be concluded on)
         idx = positions(lambda i, t: i > it and t in tm.OUT_VARS)
         toks[idx[pick % len(idx)]] = list(tm.IN_VARS)[pick % len(tm.IN_VARS)]
+    elif cls == "stray_comma":
+        # an extra token `,` in the antecedent, outside any parentheses (commas are not part of the rule grammar)
+        depth, spots = 0, []
+        for i in range(1, it + 1):
+            if depth == 0:
+                spots.append(i)
+            depth += (toks[i] == "(") - (toks[i] == ")") if i < it else 0
+        toks.insert(spots[pick % len(spots)], ",")
     elif cls == "unknown_hedge":
         idx = positions(lambda i, t: t == "is")
         toks.insert(idx[pick % len(idx)] + 1, UNKNOWN_NAMES[pick % len(UNKNOWN_NAMES)])
